@@ -1,3 +1,218 @@
-//! Deterministic scheduler over the lock hook (C17). Filled in later.
+//! Deterministic scheduler over the lock hook (C17): one thread runs at a time; a scheduling decision
+//! is taken whenever the running thread requests a lock (node lock or mutation mutex) or finishes.
+//! A schedule is the list of choices (index into the runnable threads) at every decision point.
 use gdsl::verif_hook::Event;
-pub fn on_event(_ev: Event) {}
+use std::cell::Cell;
+use std::collections::HashMap;
+use std::panic::{catch_unwind, AssertUnwindSafe};
+use std::sync::{Condvar, Mutex};
+
+#[derive(Clone, Debug, PartialEq)]
+enum St {
+    Ready,
+    Waiting { addr: usize, write: bool },
+    Done,
+}
+
+#[derive(Default)]
+struct LockSt {
+    readers: Vec<usize>,
+    writer: Option<usize>,
+}
+
+struct World {
+    active: bool,
+    current: Option<usize>,
+    st: Vec<St>,
+    locks: HashMap<usize, LockSt>,
+    schedule: Vec<usize>,
+    /// (chosen index, number of options, chosen thread id) per decision point
+    decisions: Vec<(usize, usize, usize)>,
+    deadlock: Option<String>,
+}
+static WORLD: Mutex<Option<World>> = Mutex::new(None);
+static CV: Condvar = Condvar::new();
+thread_local! { static TID: Cell<Option<usize>> = Cell::new(None); }
+struct DeadlockAbort;
+
+fn runnable(w: &World) -> Vec<usize> {
+    (0..w.st.len())
+        .filter(|&i| match &w.st[i] {
+            St::Ready => true,
+            St::Done => false,
+            St::Waiting { addr, write } => match w.locks.get(addr) {
+                None => true,
+                Some(l) => {
+                    if *write {
+                        l.writer.is_none() && l.readers.is_empty()
+                    } else {
+                        l.writer.is_none()
+                    }
+                }
+            },
+        })
+        .collect()
+}
+
+fn decide(w: &mut World) {
+    let r = runnable(w);
+    if r.is_empty() {
+        if w.st.iter().any(|s| *s != St::Done) && w.deadlock.is_none() {
+            w.deadlock = Some("every unfinished thread waits for a lock held by another waiting thread".into());
+        }
+        w.current = None;
+        return;
+    }
+    let k = w.decisions.len();
+    let idx = if k < w.schedule.len() { w.schedule[k].min(r.len() - 1) } else { 0 };
+    w.decisions.push((idx, r.len(), r[idx]));
+    w.current = Some(r[idx]);
+}
+
+fn wait_turn(me: usize) {
+    let mut g = WORLD.lock().unwrap_or_else(|e| e.into_inner());
+    loop {
+        let w = g.as_mut().unwrap();
+        if w.deadlock.is_some() {
+            drop(g);
+            std::panic::resume_unwind(Box::new(DeadlockAbort));
+        }
+        if w.current == Some(me) {
+            return;
+        }
+        g = CV.wait(g).unwrap_or_else(|e| e.into_inner());
+    }
+}
+
+pub fn on_event(e: Event) {
+    let Some(me) = TID.with(|t| t.get()) else { return };
+    match e {
+        Event::Request { addr, write } => {
+            {
+                let mut g = WORLD.lock().unwrap_or_else(|e| e.into_inner());
+                let w = g.as_mut().unwrap();
+                if !w.active {
+                    return;
+                }
+                // a lock this thread already holds: std's locks are not re-entrant
+                if let Some(l) = w.locks.get(&addr) {
+                    let holds_w = l.writer == Some(me);
+                    let holds_r = l.readers.contains(&me);
+                    if holds_w || (holds_r && write) {
+                        w.deadlock = Some("a thread requested a lock it already holds (self-deadlock)".into());
+                    } else if holds_r && w.st.iter().enumerate().any(|(i, s)| i != me && *s == St::Waiting { addr, write: true }) {
+                        w.deadlock = Some("a thread requested a second read guard on a lock while another thread waits to write it: std's RwLock queues the reader behind the writer, which waits for the first guard".into());
+                    }
+                }
+                if w.deadlock.is_some() {
+                    CV.notify_all();
+                    drop(g);
+                    std::panic::resume_unwind(Box::new(DeadlockAbort));
+                }
+                w.st[me] = St::Waiting { addr, write };
+                decide(w);
+                CV.notify_all();
+            }
+            wait_turn(me);
+            let mut g = WORLD.lock().unwrap_or_else(|e| e.into_inner());
+            let w = g.as_mut().unwrap();
+            w.st[me] = St::Ready;
+            let l = w.locks.entry(addr).or_default();
+            if write {
+                l.writer = Some(me);
+            } else {
+                l.readers.push(me);
+            }
+        }
+        Event::Acquired { .. } => {}
+        Event::Released { addr, write } => {
+            let mut g = WORLD.lock().unwrap_or_else(|e| e.into_inner());
+            let Some(w) = g.as_mut() else { return };
+            if !w.active {
+                return;
+            }
+            let l = w.locks.entry(addr).or_default();
+            if write {
+                l.writer = None;
+            } else if let Some(p) = l.readers.iter().position(|&x| x == me) {
+                l.readers.remove(p);
+            }
+        }
+    }
+}
+
+pub struct RunOut {
+    /// per thread: Ok(result text) | "PANIC" | "DEADLOCK"
+    pub results: Vec<String>,
+    pub deadlock: Option<String>,
+    pub decisions: Vec<(usize, usize, usize)>,
+}
+
+/// runs the thread bodies under the forced schedule prefix (then always the first runnable thread)
+pub fn run_once(schedule: Vec<usize>, bodies: Vec<Box<dyn FnOnce() -> String + Send>>) -> RunOut {
+    let n = bodies.len();
+    crate::hook::SCHED_MODE.store(true, std::sync::atomic::Ordering::SeqCst);
+    *WORLD.lock().unwrap_or_else(|e| e.into_inner()) = Some(World { active: true, current: None, st: vec![St::Ready; n], locks: HashMap::new(), schedule, decisions: vec![], deadlock: None });
+    {
+        let mut g = WORLD.lock().unwrap_or_else(|e| e.into_inner());
+        decide(g.as_mut().unwrap());
+    }
+    let mut hs = vec![];
+    for (i, b) in bodies.into_iter().enumerate() {
+        hs.push(std::thread::spawn(move || {
+            TID.with(|t| t.set(Some(i)));
+            let r = catch_unwind(AssertUnwindSafe(|| {
+                wait_turn(i);
+                b()
+            }));
+            let out = match r {
+                Ok(s) => s,
+                Err(e) => {
+                    if e.is::<DeadlockAbort>() {
+                        "DEADLOCK".to_string()
+                    } else {
+                        "PANIC".to_string()
+                    }
+                }
+            };
+            let mut g = WORLD.lock().unwrap_or_else(|e| e.into_inner());
+            let w = g.as_mut().unwrap();
+            w.st[i] = St::Done;
+            // a panicking thread's guards were dropped by unwinding; make sure the table agrees
+            for l in w.locks.values_mut() {
+                if l.writer == Some(i) {
+                    l.writer = None;
+                }
+                l.readers.retain(|x| *x != i);
+            }
+            if w.deadlock.is_none() {
+                decide(w);
+            }
+            CV.notify_all();
+            TID.with(|t| t.set(None));
+            out
+        }));
+    }
+    let results: Vec<String> = hs.into_iter().map(|h| h.join().unwrap_or_else(|_| "PANIC".into())).collect();
+    let mut g = WORLD.lock().unwrap_or_else(|e| e.into_inner());
+    let w = g.as_mut().unwrap();
+    w.active = false;
+    let out = RunOut { results, deadlock: w.deadlock.clone(), decisions: w.decisions.clone() };
+    drop(g);
+    crate::hook::SCHED_MODE.store(false, std::sync::atomic::Ordering::SeqCst);
+    out
+}
+
+/// the next schedule prefix in depth-first order, or None when the space is exhausted
+pub fn next_schedule(dec: &[(usize, usize, usize)]) -> Option<Vec<usize>> {
+    let mut k = dec.len();
+    while k > 0 {
+        k -= 1;
+        if dec[k].0 + 1 < dec[k].1 {
+            let mut s: Vec<usize> = dec[..k].iter().map(|d| d.0).collect();
+            s.push(dec[k].0 + 1);
+            return Some(s);
+        }
+    }
+    None
+}
